@@ -89,7 +89,8 @@ def _finish(name, blob, pw, ms):
     r = ref7z.read(blob, password=pw, strict=False, decode=False)
     a = 32 + r["header"].get("packpos", 0)
     b = 32 + r["header"]["ofs"]
-    return {"name": name, "blob": blob, "password": pw, "pristine": ms, "packed": (a, b)}
+    # has_crc: every member is protected by a stored CRC (C04/C19 quantify over such archives only; C05 takes all)
+    return {"name": name, "blob": blob, "password": pw, "pristine": ms, "packed": (a, b), "has_crc": "nocrc" not in name}
 
 
 def all_bases(tier: str):
